@@ -7,10 +7,17 @@ Open Scope Z_scope.
 (* the real number denoted by a finite double *)
 Definition rval (x : b64) : R := B2R x.
 
+(* The format's range and "the nearest end of the range", stated here independently of the model (the model
+   has its own fmt_min / fmt_max / clamp, following the code; Proofs/FixFloat.v `spec_range_is_model_range`
+   shows they are the same functions). *)
+Definition range_min (signed : bool) (n_bits : Z) : Z := if signed then - 2 ^ (n_bits - 1) else 0.
+Definition range_max (signed : bool) (n_bits : Z) : Z := if signed then 2 ^ (n_bits - 1) - 1 else 2 ^ n_bits - 1.
+Definition saturate (lo hi i : Z) : Z := Z.max (Z.min hi i) lo.
+
 (* "the value scaled and truncated toward zero when that is representable and otherwise the nearest
    end of the format's range": the exact (real-number) scaled value, truncated, clamped *)
 Definition fp_spec (signed : bool) (n_bits n_frac : Z) (x : R) : Z :=
-  clamp (fmt_min signed n_bits) (fmt_max signed n_bits) (Ztrunc (x * bpow radix2 n_frac)).
+  saturate (range_min signed n_bits) (range_max signed n_bits) (Ztrunc (x * bpow radix2 n_frac)).
 
 (* the property's quantifier: a finite float whose scaled value is still a finite float *)
 Definition in_domain (n_frac : Z) (x : b64) : Prop :=
@@ -18,7 +25,7 @@ Definition in_domain (n_frac : Z) (x : b64) : Prop :=
   exists scale, py_pow2 n_frac = Ok scale /\ is_finite (b64_mult scale x) = true.
 
 Definition representable (signed : bool) (n_bits v : Z) : Prop :=
-  fmt_min signed n_bits <= v <= fmt_max signed n_bits.
+  range_min signed n_bits <= v <= range_max signed n_bits.
 
 (* a two's-complement word of n_bits bits read as a signed / unsigned number *)
 Definition word_value (signed : bool) (n_bits w : Z) : Z :=
